@@ -18,3 +18,8 @@ add("C03","exploration",
  "Exhaustive up to the line bound stated in the evidence (all selection vectors x before/after/max in {0,1,2,3,5,n+1} x invert x final newline), sampled beyond it (files to 5000 lines, generated RE2 patterns, e2e).",
  "Trusted: Go regexp, the reference model; no-op patterns are not combined with --invert.",
  "DESIGN.md §2 C03")
+add("C01","exploration",
+ "runtime monitoring: seeded byte-class content generator; real dcat binary (serverless and over SSH against in-process servers, plain and REMOTE-record mode, gzip/zstd containers, three MaxLineLength values); oracle = byte equality of stdout with the content after the only permitted transformation; deviations are classified against narrow known-finding predictors",
+ "Held on the generated files counted in the evidence (byte classes x containers x M x transport cells); files up to 2 MiB (thorough).",
+ "Trusted: compress/gzip, DataDog/zstd writer for test inputs; clients must run with --logLevel error; known findings c01.* are recognised by exact prediction only.",
+ "DESIGN.md §2 C01")
